@@ -108,7 +108,10 @@ Verdict(e) ==
          ELSE IF e.ty = "f32" THEN FromFloatOK(ZOf(e.bits).m, 32, e.r)
          ELSE IF e.ty = "f64" THEN FromFloatOK(ZOf(e.bits).m, 64, e.r)
          ELSE IF IsNumeral(e.text) THEN ParseOK("from_str", e.text, 10, TRUE, e.r) ELSE Chk(IsErr(e.r), "must-be-error")
-    [] op = "exp" -> ExpOK(Arg(e.a), cfg.precision, e.r)
+    [] op = "exp" -> LET v == ExpOK(Arg(e.a), cfg.precision, e.r)
+                     \* behaviours printed by the mechanism model MC_ExpMech (instantiated with T digits) carry the modelled routine's result
+                     IN IF v = OK /\ "mech" \in DOMAIN e /\ e.T = cfg.precision /\ ~ValEq(DecOf(e.r.d), DecOf(e.mech))
+                        THEN Info("result-differs-from-the-modelled-routine") ELSE v
     [] op = "sqrt" -> SqrtOK(IF e.form \in {"default", "ctx", "dref_ctx"} THEN "some" ELSE IF e.form = "dref_abs" THEN "abs" ELSE "copysign",
                              Arg(e.a), PrecOf(e), ModeOf(e), e.r)
     [] op = "cbrt" -> CbrtOK(Arg(e.a), PrecOf(e), ModeOf(e), e.r)
